@@ -50,53 +50,31 @@ Definition event_justified (s0 : state) (h : list op) (r : string) (e : event) :
   | ERef _ => True
   end.
 
-(** C26 as stated: for any history and any non-administrator role, a statement of any listed shape outside
-    the known classes reads rows of a table only if the history left the role SELECT on it, and inserts /
-    updates / deletes only with the matching privilege ... *)
+(** C26 as stated: for any history and any non-administrator role, a statement of any listed shape reads rows
+    of a table only if the history left the role SELECT on it, and inserts / updates / deletes only with the
+    matching privilege ... *)
 Theorem access_follows_history : forall s0 h r p,
-  is_admin r = false -> unguarded_known p = false ->
+  is_admin r = false ->
   forall e, In e (snd (run (held_in (session_after s0 h r)) (program p))) -> event_justified s0 h r e.
 Proof.
-  intros s0 h r p Ha Hk e He.
-  pose proof (paths_complete p Hk (held_in (session_after s0 h r)) e He) as HP.
+  intros s0 h r p Ha e He.
+  pose proof (paths_complete p (held_in (session_after s0 h r)) e He) as HP.
   destruct e as [t|t a|t]; cbn in HP |- *.
   - apply (held_in_session s0 h r t ASel Ha). exact HP.
   - apply (held_in_session s0 h r t a Ha). exact HP.
   - exact I.
 Qed.
 
-(** ... otherwise it fails and changes nothing (outside the silent and the partial class) *)
+(** ... otherwise it fails and changes nothing *)
 Theorem lacking_fails_and_changes_nothing : forall s0 h r p t a,
-  is_admin r = false -> unguarded_known p = false -> silent_known p = false -> partial_known p = false ->
+  is_admin r = false ->
   In (t, a) (required p) -> ~ held_by_history s0 h r (name_of t) (priv_of a) ->
   fst (run (held_in (session_after s0 h r)) (program p)) = ODenied /\
   filter is_change (snd (run (held_in (session_after s0 h r)) (program p))) = [].
 Proof.
-  intros s0 h r p t a Ha Hk Hs Hp Hr Hn.
-  assert (Hh : held_in (session_after s0 h r) t a = false).
-  { destruct (held_in (session_after s0 h r) t a) eqn:E; [|reflexivity].
-    exfalso. apply Hn. apply (held_in_session s0 h r t a Ha). exact E. }
-  assert (HD : fst (run (held_in (session_after s0 h r)) (program p)) = ODenied).
-  { exact (paths_deny p Hk Hs (held_in (session_after s0 h r)) t a Hr Hh). }
-  split; [exact HD | apply paths_denied_change_nothing; assumption].
-Qed.
-
-(** the same for the whole table once the proposed repairs are in ([program_fixed]) *)
-Theorem access_follows_history_fixed : forall s0 h r p,
-  is_admin r = false ->
-  (forall e, In e (snd (run (held_in (session_after s0 h r)) (program_fixed p))) -> event_justified s0 h r e) /\
-  (forall t a, In (t, a) (required p) -> ~ held_by_history s0 h r (name_of t) (priv_of a) ->
-     fst (run (held_in (session_after s0 h r)) (program_fixed p)) = ODenied /\
-     filter is_change (snd (run (held_in (session_after s0 h r)) (program_fixed p))) = []).
-Proof.
-  intros s0 h r p Ha. destruct (paths_fixed_complete p (held_in (session_after s0 h r))) as [H1 H2]. split.
-  - intros e He. specialize (H1 e He). destruct e as [t|t a|t]; cbn in H1 |- *.
-    + apply (held_in_session s0 h r t ASel Ha). exact H1.
-    + apply (held_in_session s0 h r t a Ha). exact H1.
-    + exact I.
-  - intros t a Hr Hn. apply (H2 t a Hr).
-    destruct (held_in (session_after s0 h r) t a) eqn:E; [|reflexivity].
-    exfalso. apply Hn. apply (held_in_session s0 h r t a Ha). exact E.
+  intros s0 h r p t a Ha Hr Hn. apply (paths_lacking p _ t a Hr).
+  destruct (held_in (session_after s0 h r) t a) eqn:E; [|reflexivity].
+  exfalso. apply Hn. apply (held_in_session s0 h r t a Ha). exact E.
 Qed.
 
 (** an administrator, or any role while security is disabled, is never refused *)
@@ -108,14 +86,15 @@ Proof.
   destruct H as [H|H]; [apply check_security_off | apply check_admin]; exact H.
 Qed.
 
-(** example: the bulk-transfer path against a concrete history - the role was granted INSERT on T only and
-    still reads S *)
+(** examples: the bulk-transfer path against a concrete history - the role was granted INSERT on T only; the
+    statement is now refused (before the fix it read S: [program_before]) *)
 Example ex_history_bulk :
   let s0 := init_state ["T"; "S"] ["public"] in
   let h := [OCreateRole "R1"; OGrant [PInsert None] OTable "T" ["R1"] false] in
-  run (held_in (session_after s0 h "R1")) (program P_insert_select_bulk) = (OOk, [ERead TS; EWrite TT AIns]) /\
+  run (held_in (session_after s0 h "R1")) (program P_insert_select_bulk) = (ODenied, []) /\
+  run (held_in (session_after s0 h "R1")) (program_before P_insert_select_bulk) = (OOk, [ERead TS; EWrite TT AIns]) /\
   held_in (session_after s0 h "R1") TS ASel = false.
-Proof. vm_compute. split; reflexivity. Qed.
+Proof. vm_compute. repeat split. Qed.
 
 Example ex_history_guarded :
   let s0 := init_state ["T"; "S"] ["public"] in
